@@ -77,15 +77,26 @@ pub struct FwdTrace {
     /// configuration swarm: (enable_stats, debug_mode, a timeout of an hour that can never expire)
     #[serde(default)]
     pub cfg: (bool, bool, bool),
+    /// the date lattice is offset by this many milliseconds (0, 250 or 750): effective and expiry dates that
+    /// are not on a whole second, evaluation instants in the same second on either side of them
+    #[serde(default)]
+    pub frac: u16,
 }
 
 pub struct FwdWorld;
 
-fn lattice_ms(i: u8) -> i64 {
-    BASE_MS + (i as i64) * 1000
+thread_local! {
+    /// the run's sub-second offset of the date lattice (FwdTrace::frac)
+    static FRAC: std::cell::Cell<i64> = const { std::cell::Cell::new(0) };
 }
+fn lattice_ms(i: u8) -> i64 {
+    BASE_MS + (i as i64) * 1000 + FRAC.with(|f| f.get())
+}
+/// evaluation instants: the odd ones lie exactly on the lattice points, the even ones half a second before —
+/// at a whole-second offset, that is; with a lattice offset of 750 ms an even instant falls in the same
+/// wall-clock second as the lattice point after it
 fn eval_ms(e: u8) -> i64 {
-    BASE_MS - 500 + (e as i64) * 500
+    BASE_MS - 500 + (e as i64) * 500 + if e % 2 == 1 { FRAC.with(|f| f.get()) } else { 0 }
 }
 fn dt(ms: i64) -> DateTime<Utc> {
     Utc.timestamp_millis_opt(ms).single().expect("valid instant")
@@ -630,6 +641,7 @@ impl World for FwdWorld {
             ops,
             tick_pattern: if rng.chance(1, 5) { vec![*rng.pick(&[1u8, 250, 250]), 0] } else { vec![] },
             cfg: (rng.chance(1, 3), rng.chance(1, 10), rng.chance(1, 6)),
+            frac: *rng.pick(&[0u16, 0, 250, 750]),
         }
     }
 
@@ -639,6 +651,10 @@ impl World for FwdWorld {
 
     fn run(&self, _prop: &str, t: &FwdTrace, obs: &mut Obs) -> Result<(), Violation> {
         obs.fp_str(&serde_json::to_string(t).unwrap_or_default());
+        FRAC.with(|f| f.set(t.frac as i64));
+        if t.frac != 0 && t.rules.iter().any(|r| r.effective.is_some() || r.expires.is_some()) {
+            obs.count("probe.date_bound_not_on_a_whole_second");
+        }
         clock::install(eval_ms(3) as u64);
         clock::set_tick_pattern(t.tick_pattern.clone());
         obs.faulty = !t.tick_pattern.is_empty() || t.ops.iter().any(|o| matches!(o, FOp::ClockSet(_)));
@@ -986,6 +1002,9 @@ impl World for FwdWorld {
         }
         if t.hash_seed != 1 {
             out.push(FwdTrace { hash_seed: 1, ..t.clone() });
+        }
+        if t.frac != 0 {
+            out.push(FwdTrace { frac: 0, ..t.clone() });
         }
         out
     }
